@@ -95,6 +95,15 @@ def classify(chk, mism, lines):
          dev:<deviation>:streq         a string comparison fails in the way the named deviation describes
          <clause>:<dir>:<string>       anything else (never matches a known finding)"""
     notes = {}
+    unexplained = {}
+
+    def violation(clause, key, what, replay):
+        # one replay file per failing string would be thousands after a formatter bug: keep the first few strings
+        # of every clause (the count of the rest goes to the evidence notes)
+        unexplained[clause] = unexplained.get(clause, 0) + 1
+        if unexplained[clause] <= 6:
+            chk.report(key, what, replay)
+
     for m in mism:
         what = m["what"]
         if what not in CLAUSES:
@@ -110,8 +119,8 @@ def classify(chk, mism, lines):
                     chk.report("dev:%s:accept" % dev,
                                {"clause": "accept", "string": s, "build": m["build"], "explained_by": devs[0]}, replay)
             else:
-                chk.report("accept:%s:%s" % (d.get("dir"), s),
-                           {"clause": "accept", "string": s, "build": m["build"], "detail": d}, replay)
+                violation("accept", "accept:%s:%s" % (d.get("dir"), s),
+                          {"clause": "accept", "string": s, "build": m["build"], "detail": d}, replay)
             continue
         under = d.get("under") or []
         dd = d.get("d", {})
@@ -123,9 +132,11 @@ def classify(chk, mism, lines):
                        {"clause": what, "string": s, "other": text(dd.get("t", [])), "got": dd.get("got"),
                         "build": m["build"]}, replay)
         else:
-            chk.report("%s:%s" % (what, s), {"clause": what, "string": s, "build": m["build"], "detail": dd}, replay)
-        notes[what] = notes.get(what, 0) + 1
-    return notes
+            violation(what, "%s:%s" % (what, s), {"clause": what, "string": s, "build": m["build"], "detail": dd}, replay)
+    for clause, n in sorted(unexplained.items()):
+        if n > 6:
+            chk.notes.append("clause %s: %d failing observations, the first 6 reported" % (clause, n))
+    return unexplained
 
 
 def observe(chk, bins, cases, tag):
